@@ -1,9 +1,9 @@
 (** C05 — the gateway endpoint needs confirmed credentials of an enabled
     scheme. Model: Model/HttpAuth.v (route table of main(), Basic/NTLM
     middlewares); the backend's verdict is an answer attached to the request. *)
-From Coq Require Import List NArith Bool Lia.
+From Coq Require Import List NArith Bool Lia String.
 From Coq.Strings Require Import Byte.
-From RDPGW Require Import Lib.Bytes Gen.Consts Model.HttpAuth.
+From RDPGW Require Import Lib.Bytes Gen.Consts Gen.Facts Model.HttpAuth.
 Import ListNotations.
 Open Scope N_scope.
 
@@ -44,6 +44,21 @@ Theorem C05_no_header_challenges : forall m rest basic bk,
   dispatch m [] basic bk = Status 401 (challenges m).
 Proof. intros m rest basic bk O. unfold dispatch, pick_route. rewrite O. split; reflexivity. Qed.
 Print Assumptions C05_no_header_challenges.
+
+(** The challenges of [challenges m] are registered in main() under exactly the test of their own
+    mechanism (regenerated from the source; error exits aside): a challenge that depends on anything
+    else would be missing from the 401 of a configuration that enables the mechanism. *)
+Definition bs (s : string) : bytes := list_byte_of_string s.
+Definition without_error_exits (t : list (bytes * list bytes)) : list (bytes * list bytes) :=
+  map (fun s => (fst s, filter (fun g => negb (bytes_eqb g (bs "!err!=nil"))) (snd s))) t.
+Theorem C05_challenges_registered_per_mechanism :
+  without_error_exits CHALLENGES_registered =
+  [ (bs "auth.Register(`NTLM`)", [bs "conf.Server.NtlmEnabled()"]);
+    (bs "auth.Register(`Negotiate`)", [bs "conf.Server.NtlmEnabled()"]);
+    (bs "auth.Register(`Basic realm=""restricted"", charset=""UTF-8""`)", [bs "conf.Server.BasicAuthEnabled()"]);
+    (bs "auth.Register(""Negotiate"")", [bs "conf.Server.KerberosEnabled()"]) ].
+Proof. vm_compute. reflexivity. Qed.
+Print Assumptions C05_challenges_registered_per_mechanism.
 
 (** Converse, under the hypothesis the unanchored route patterns force: confirmed
     Basic credentials reach the handler when no Authorization value contains the
